@@ -94,9 +94,13 @@ def make_posterior(flags, batches, bins, betas=None, ess_trim="9/10"):
         tot = w[0]
         for v in w[1:]:
             tot = tot + v
-        ctx.check("weights-sum-to-one", eq(tot, 1))
         if resample:
-            ctx.check("uniform-when-resampled", z3.And(*[eq(w[i], Fraction(1, n)) for i in range(n)]))
+            ctx.check("weights-sum-to-one", z3.And(le(tot, 1 + 1e-12), le(1 - 1e-12, tot)))  # concrete doubles 1/n
+        else:
+            ctx.check("weights-sum-to-one", eq(tot, 1))
+        if resample:
+            # the code builds np.ones(n)/n in floating point: compare with the same double
+            ctx.check("uniform-when-resampled", z3.And(*[eq(w[i], 1.0 / n) for i in range(n)]))
         # row-wise agreement: identify the history record by the identity of the x symbol
         ks = []
         for i in range(len(x)):
@@ -305,7 +309,7 @@ def obligations(tier):
     obs = []
     combos = list(itertools.product((False, True), repeat=4))
     for flags in combos:
-        obs.append(make_posterior(flags, (1, 1) if flags[1] else (2, 1), 2 if flags[1] else 3))
+        obs.append(make_posterior(flags, (2, 1), 3))
     obs.append(make_termination((2, 1), (Fraction(0), Fraction(1))))
     obs.append(make_evidence((2, 1), (Fraction(0), Fraction(1))))
     if tier == "thorough":
